@@ -107,6 +107,9 @@ class Corr:
                     raise ValueError("Smearing matrices are not NxN.")
                 if (not all([item.shape == noNull[0].shape for item in noNull])):
                     raise ValueError("Items in data_input are not of identical shape." + str(noNull))
+                if noNull[0].shape == (1, 1):
+                    # a 1x1 matrix is a single observable per timeslice
+                    self.content = [None if item is None else item.reshape(1) for item in self.content]
             else:
                 raise TypeError("'data_input' contains item of wrong type.")
         else:
